@@ -864,3 +864,50 @@ func checkDumpReaderFields(c *Ctx, rd *ssa.Function) {
 			"decoded entries are stored only under "+extra+": live entries of an intact dump are dropped on reload without an error")
 	}
 }
+
+
+// checkDumpWriterPairing: what the dump writer puts into an entry is that cache entry's own pair: Key = the bytes of
+// the range callback's key parameter, Msg = item.resp.Pack() — a fresh slice per entry. (Packing into a buffer
+// that is shared by the entries of a block makes every key of the block map to the answer packed last.)
+func checkDumpWriterPairing(c *Ctx) {
+	wd := c.fn(relCachePlugin, "Cache", "writeDump")
+	if wd == nil {
+		return
+	}
+	CE := relCachePlugin + ".CachedEntry"
+	IT := relCachePlugin + ".item"
+	written := map[string]ssa.Value{}
+	var rangeFn *ssa.Function
+	eachInstrDeep(wd, func(f *ssa.Function, in ssa.Instruction) {
+		if st, ok := in.(*ssa.Store); ok {
+			if k, ok := fieldKey(st.Addr); ok && strings.HasPrefix(k, CE+".") {
+				written[strings.TrimPrefix(k, CE+".")] = st.Val
+				rangeFn = f
+			}
+		}
+	})
+	if rangeFn == nil || len(rangeFn.Params) < 3 {
+		c.anchorMissing("range function building CachedEntry in writeDump")
+		return
+	}
+	c.see(rangeFn)
+	if v, ok := written["Key"]; ok {
+		cv, isC := v.(*ssa.Convert)
+		c.check(isC && stripConv(cv.X) == ssa.Value(rangeFn.Params[0]), "dump-pair:key", valuePos(v), "Key <- []byte(the entry's key)", "the dumped key is "+exprStr(v)+", not the bytes of the entry's own key: after a reload the answer is served for another question")
+	} else {
+		c.fail("dump-pair:key", wd.Pos(), "writeDump never sets the entry's key")
+	}
+	if v, ok := written["Msg"]; ok {
+		good := false
+		if ex, isE := v.(*ssa.Extract); isE {
+			if cl, isC := ex.Tuple.(*ssa.Call); isC && callName(cl) == "(*github.com/miekg/dns.Msg).Pack" {
+				if k, okk := loadedField(cl.Call.Args[0]); okk && k == IT+".resp" {
+					good = true
+				}
+			}
+		}
+		c.check(good, "dump-pair:msg", valuePos(v), "Msg <- item.resp.Pack() (a fresh slice per entry)", "the dumped message bytes are "+exprStr(v)+", not a fresh item.resp.Pack(): entries collected in one block can share one buffer, and after a reload their keys all map to the answer packed last")
+	} else {
+		c.fail("dump-pair:msg", wd.Pos(), "writeDump never sets the entry's message")
+	}
+}
